@@ -1,11 +1,20 @@
-(* C02 -- pairwise spatial predicates.  Only statements closed by [exact] and their
-   Print Assumptions. *)
-From GV Require Import Prelude TimeM GeomM SweepM PairM SweepP.
+(* C02 -- pairwise spatial predicates: equal to edge-pair truth, symmetric, contains => intersects,
+   time-free, never raise.  Only statements closed by [exact] and their Print Assumptions.
+   Models: SweepM.v (do_edges_intersect), PairM.v (intersects_shape / contains_shape), GeomM.v
+   (find_line_intersection, point membership; C01).  [w] is the west end of the
+   point-in-polygon ray (-180 times the coordinate scale).
+
+   NOT claimed (DESIGN C02 "Not proved"): that the answer equals the planar set truth in general;
+   the first-vertex fallback is not shown independent of the vertex order.  The D5 theorems at the
+   end refute the set-truth reading on concrete inputs (known findings D5a/b/c). *)
+From GV Require Import Prelude TimeM GeomM SweepM PairM SweepP PairP.
 Open Scope Z_scope.
 
-(* The sweep of do_edges_intersect answers exactly "some a-edge hits some b-edge", for every
-   segment test that is symmetric, blind to the direction of a segment and true only of
-   segments whose latitude ranges overlap; in particular it never raises. *)
+(* ---- the sweep ---------------------------------------------------------------------------- *)
+
+(* For every segment test that is symmetric, blind to the direction of a segment and true only
+   of segments whose latitude ranges overlap, the sweep answers exactly "some a-edge hits some
+   b-edge" -- for all edge lists, duplicates / retraced / horizontal / zero-length included. *)
 Theorem C02_sweep_brute_generic : forall hit : sg -> sg -> bool,
   (forall a b, hit a b = hit b a) ->
   (forall a b, hit (swap_sg a) b = hit a b) ->
@@ -13,3 +22,190 @@ Theorem C02_sweep_brute_generic : forall hit : sg -> sg -> bool,
   forall ea eb, sweep hit ea eb = Ok (brute hit ea eb).
 Proof. exact sweep_brute. Qed.
 Print Assumptions C02_sweep_brute_generic.
+
+(* the three hypotheses hold of the model of find_line_intersection *)
+Theorem C02_hit_sym : forall a b, hit a b = hit b a.
+Proof. exact hit_sym. Qed.
+Print Assumptions C02_hit_sym.
+
+Theorem C02_hit_direction_free : forall a b, hit (swap_sg a) b = hit a b.
+Proof. exact hit_swap. Qed.
+Print Assumptions C02_hit_direction_free.
+
+Theorem C02_hit_lat_overlap : forall a b, hit a b = true ->
+  Z.max (lat_lo a) (lat_lo b) <= Z.min (lat_hi a) (lat_hi b).
+Proof. exact hit_lat. Qed.
+Print Assumptions C02_hit_lat_overlap.
+
+(* hence, for do_edges_intersect as the library runs it: *)
+Theorem C02_sweep_brute : forall ea eb,
+  sweep hit ea eb = Ok (existsb (fun a => existsb (fun b => hit a b) eb) ea).
+Proof. exact sweep_hit_brute. Qed.
+Print Assumptions C02_sweep_brute.
+
+Theorem C02_sweep_never_err : forall ea eb, exists r, sweep hit ea eb = Ok r.
+Proof. exact sweep_hit_never_err. Qed.
+Print Assumptions C02_sweep_never_err.
+
+Theorem C02_sweep_sym : forall ea eb, sweep hit ea eb = sweep hit eb ea.
+Proof. exact sweep_hit_sym. Qed.
+Print Assumptions C02_sweep_sym.
+
+(* the event sort is a sorted permutation and leaves a sorted list alone (stable) *)
+Theorem C02_sort_spec : forall sf l,
+  Permutation.Permutation (sort_events sf l) l /\
+  Sorted.StronglySorted (ev_le sf) (sort_events sf l) /\
+  (Sorted.StronglySorted (ev_le sf) l -> sort_events sf l = l).
+Proof. exact (fun sf l => conj (sort_perm sf l) (conj (sort_sorted sf l) (sort_id_on_sorted sf l))). Qed.
+Print Assumptions C02_sort_spec.
+
+(* ---- shapes: equal to edge-pair truth ------------------------------------------------------- *)
+
+(* polygon / box / linestring against polygon / box / linestring:
+     some edge pair hits, or the first vertex of B is in A, or the first vertex of A is in B *)
+Theorem C02_intersects_edge_truth : forall w a b,
+  valid a -> valid b -> is_pt a = false -> is_pt b = false ->
+  intersects_shape w a b =
+    Ok (edge_part a b || contains_coordinate w a (first_pt b) || contains_coordinate w b (first_pt a)).
+Proof. exact intersects_edge_truth. Qed.
+Print Assumptions C02_intersects_edge_truth.
+
+(* polygon / box receiver: no edge pair hits and the first vertex of B is in A *)
+Theorem C02_contains_edge_truth : forall w a b,
+  valid b -> is_area a = true -> is_pt b = false ->
+  contains_shape w a b = Ok (negb (edge_part a b) && contains_coordinate w a (first_pt b)).
+Proof. exact contains_edge_truth. Qed.
+Print Assumptions C02_contains_edge_truth.
+
+(* with a point, every test is C01's membership / vertex membership / equality *)
+Theorem C02_point_rel_spec : forall w,
+  (forall o hs d p d', intersects_shape w (Poly o hs d) (Pt p d') = Ok (poly_contains w o hs p) /\
+                       intersects_shape w (Pt p d') (Poly o hs d) = Ok (poly_contains w o hs p) /\
+                       contains_shape w (Poly o hs d) (Pt p d') = Ok (poly_contains w o hs p)) /\
+  (forall nw se hs d p d', intersects_shape w (Box nw se hs d) (Pt p d') = Ok (box_contains w nw se hs p) /\
+                           intersects_shape w (Pt p d') (Box nw se hs d) = Ok (box_contains w nw se hs p) /\
+                           contains_shape w (Box nw se hs d) (Pt p d') = Ok (box_contains w nw se hs p)) /\
+  (forall vs d p d', (intersects_shape w (Ln vs d) (Pt p d') = Ok true <-> In p vs) /\
+                     (intersects_shape w (Pt p d') (Ln vs d) = Ok true <-> In p vs) /\
+                     (contains_shape w (Ln vs d) (Pt p d') = Ok true <-> In p vs)) /\
+  (forall p d q d', (intersects_shape w (Pt p d) (Pt q d') = Ok true <-> p = q) /\
+                    (contains_shape w (Pt p d) (Pt q d') = Ok true <-> p = q)).
+Proof. exact point_rel_spec. Qed.
+Print Assumptions C02_point_rel_spec.
+
+(* ---- the laws -------------------------------------------------------------------------------- *)
+
+(* symmetric, for every ordered pair of kinds (16 combinations in one statement) *)
+Theorem C02_intersects_sym : forall w a b, valid a -> valid b ->
+  intersects_shape w a b = intersects_shape w b a.
+Proof. exact intersects_sym. Qed.
+Print Assumptions C02_intersects_sym.
+
+Theorem C02_contains_imp_intersects : forall w a b, valid b ->
+  contains_shape w a b = Ok true -> intersects_shape w a b = Ok true.
+Proof. exact contains_imp_intersects. Qed.
+Print Assumptions C02_contains_imp_intersects.
+
+(* the time bounds carried by the shapes are never read (after repair D4 every `in` on these
+   paths receives a Coordinate, for which BaseShapeProtocol.contains applies no time gate) *)
+Theorem C02_spatial_time_free : forall w a b d1 d2,
+  intersects_shape w (with_dt d1 a) (with_dt d2 b) = intersects_shape w a b /\
+  contains_shape w (with_dt d1 a) (with_dt d2 b) = contains_shape w a b.
+Proof. exact spatial_time_free. Qed.
+Print Assumptions C02_spatial_time_free.
+
+(* no exception for valid shapes (paths with >= 2 vertices, retracing or not; outlines with >= 2) *)
+Theorem C02_never_err : forall w a b, valid a -> valid b ->
+  exists r1 r2, intersects_shape w a b = Ok r1 /\ contains_shape w a b = Ok r2.
+Proof. exact never_err. Qed.
+Print Assumptions C02_never_err.
+
+(* ---- linestring containment -------------------------------------------------------------------- *)
+Theorem C02_sublist_spec : forall a b, is_sub_list a b = true <-> exists p s, b = p ++ a ++ s.
+Proof. exact sublist_spec. Qed.
+Print Assumptions C02_sublist_spec.
+
+Theorem C02_line_contains_spec : forall w vs d us d',
+  contains_shape w (Ln vs d) (Ln us d') = Ok true <-> exists p s, vs = p ++ us ++ s.
+Proof. exact line_contains_spec. Qed.
+Print Assumptions C02_line_contains_spec.
+
+(* ---- vertex order: proved for the edge-crossing disjunct only ---------------------------------- *)
+
+(* the edge part is a function of the undirected edge sets of the two shapes *)
+Theorem C02_edge_part_equiv : forall a a' b b',
+  edge_equiv (all_edges a) (all_edges a') -> edge_equiv (all_edges b) (all_edges b') ->
+  edge_part a b = edge_part a' b' /\
+  edges_cross (edge_rings a) (edge_rings b) = edges_cross (edge_rings a') (edge_rings b').
+Proof. exact edge_part_equiv. Qed.
+Print Assumptions C02_edge_part_equiv.
+
+(* in particular it is unchanged when the closed outline handed to the GeoPolygon constructor is
+   reversed or started at another vertex, any number of times, on either side of the test *)
+Theorem C02_edge_part_order_free : forall c c' hs d b,
+  closed_ring c -> reorder c c' ->
+  edges_cross (edge_rings (mk_poly c' hs d)) (edge_rings b) =
+    edges_cross (edge_rings (mk_poly c hs d)) (edge_rings b) /\
+  edges_cross (edge_rings b) (edge_rings (mk_poly c' hs d)) =
+    edges_cross (edge_rings b) (edge_rings (mk_poly c hs d)).
+Proof. exact edge_part_order_free. Qed.
+Print Assumptions C02_edge_part_order_free.
+
+(* ---- known findings D5: the planar-set reading is false of the code ----------------------------- *)
+Theorem C02_intersects_boundary_point_refuted :
+  exists o p e, In e (all_edges (mk_poly o [] None)) /\ on_segment p e /\
+    intersects_shape (-180) (mk_poly o [] None) (Pt p None) = Ok false /\
+    intersects_shape (-180) (Pt p None) (mk_poly o [] None) = Ok false.
+Proof. exact intersects_boundary_point_refuted. Qed.
+Print Assumptions C02_intersects_boundary_point_refuted.
+
+Theorem C02_intersects_segment_interior_point_refuted :
+  exists vs p e, In e (all_edges (Ln vs None)) /\ on_segment p e /\ p <> fst e /\ p <> snd e /\
+    intersects_shape (-180) (Ln vs None) (Pt p None) = Ok false /\
+    intersects_shape (-180) (Pt p None) (Ln vs None) = Ok false.
+Proof. exact intersects_segment_interior_point_refuted. Qed.
+Print Assumptions C02_intersects_segment_interior_point_refuted.
+
+Theorem C02_contains_around_hole_refuted :
+  exists a b q, valid a /\ valid b /\
+    contains_shape (-180) a b = Ok true /\
+    contains_coordinate (-180) b q = true /\ contains_coordinate (-180) a q = false.
+Proof. exact contains_around_hole_refuted. Qed.
+Print Assumptions C02_contains_around_hole_refuted.
+
+(* ---- the repaired lines matter: the pre-repair variants of the model are refuted ----------------- *)
+Theorem C02_sweep_pre_D2_refuted :
+  exists ea eb, brute hit ea eb = true /\
+    sweep_gen hit false false ea eb = Ok false /\ sweep_gen hit false false eb ea = Ok true.
+Proof. exact sweep_pre_D2_refuted. Qed.
+Print Assumptions C02_sweep_pre_D2_refuted.
+
+Theorem C02_sweep_pre_D3_refuted : exists ea eb, sweep_gen hit true true ea eb = Err KeyError.
+Proof. exact sweep_pre_D3_refuted. Qed.
+Print Assumptions C02_sweep_pre_D3_refuted.
+
+Theorem C02_time_free_pre_D4_refuted :
+  exists a b d1 d2,
+    intersects_shape_gen (-180) false (with_dt d1 a) (with_dt d2 b) <>
+    intersects_shape_gen (-180) false a b.
+Proof. exact time_free_pre_D4_refuted. Qed.
+Print Assumptions C02_time_free_pre_D4_refuted.
+
+(* ---- non-vacuity: the hypotheses are met by concrete non-trivial values ------------------------- *)
+Example C02_nonvacuous :
+  let A := mk_poly (sq 0 0 8 8) [mk_hpoly (sq 2 2 6 6)] (Some (mkiv 0 10)) in
+  let B := Ln [(5, 5); (6, 6); (5, 5)] None in                   (* out-and-back path *)
+  let C := mk_poly (sq 4 4 12 12) [] (Some (mkiv 5 15)) in
+  valid A /\ valid B /\ valid C /\ is_pt A = false /\ is_area A = true /\
+  intersects_shape (-180) A C = Ok true /\ edge_part A C = true /\
+  intersects_shape (-180) A B = Ok false /\ contains_shape (-180) A B = Ok false /\
+  contains_shape (-180) A (Ln [(1, 1); (1, 7)] None) = Ok true /\
+  closed_ring (sq 0 0 8 8 ++ [(0, 0)]) /\
+  reorder (sq 0 0 8 8 ++ [(0, 0)]) [(8, 0); (8, 8); (0, 8); (0, 0); (8, 0)] /\
+  sweep hit diamond0 diamond_up = Ok true /\
+  is_sub_list [(1, 1); (2, 2)] [(0, 0); (1, 1); (2, 2); (3, 3)] = true.
+Proof.
+  cbv zeta. repeat split; try (vm_compute; (reflexivity || lia)).
+  - exists (0, 0), [(8, 0); (8, 8); (0, 8)]. reflexivity.
+  - apply (ro_rot _ _ (ro_refl _)).
+Qed.
